@@ -51,7 +51,7 @@ theorem sibList_reverse (f : Frame) (n : Node) :
       f.right.reverse.map (fun c => (false, c)) ++ (true, n) :: f.left.map (fun c => (false, c)) := by
   simp [sibList, List.map_reverse]
 
-theorem nth_iff (a b : Int) (last ofType : Bool) (l : Loc) (hl : LocalOk l) :
+theorem nth_iff (a b : Int) (last ofType : Bool) (l : Loc) :
     selMatch (.nth a b last ofType) l = true ↔ Matches (.nth a b last ofType) l := by
   simp only [selMatch, Matches, IsElem]
   by_cases hk : l.kind = .elem
@@ -59,15 +59,17 @@ theorem nth_iff (a b : Int) (last ofType : Bool) (l : Loc) (hl : LocalOk l) :
     have : (l.kind != Kind.elem) = true := by simp [hk]
     simp [simpleNthMatch, nthChildMatch, this, hk]
   case pos =>
-    have hp := hl.parent hk
     obtain ⟨n, path⟩ := l
     cases path with
-    | nil => exact absurd rfl hp
+    | nil =>
+      have hnk : ((Loc.mk n []).kind != Kind.elem) = false := by simp [hk]
+      simp [simpleNthMatch, nthChildMatch, hnk, HasParent, Loc.parent?]
     | cons f fs =>
       have hk' : n.kind = .elem := hk
       have hs := skips_self ofType n hk'
       have hnk : ((Loc.mk n (f :: fs)).kind != Kind.elem) = false := by simp [hk]
-      simp only [hk, true_and, index_eq, AnB]
+      have hpar : HasParent ⟨n, f :: fs⟩ := ⟨_, rfl⟩
+      simp only [hk, hpar, true_and, index_eq, AnB]
       by_cases ha : a = 0
       · subst ha
         simp only [beq_self_eq_true, ↓reduceIte, simpleNthMatch, hnk, Bool.false_eq_true, Loc.data]
@@ -106,7 +108,7 @@ theorem qual_zero_iff (ofType : Bool) (l : Loc) (xs : List Loc) :
   rw [← filter_counts_length, List.length_eq_zero_iff, List.filter_eq_nil_iff]
   simp
 
-theorem only_iff (ofType : Bool) (l : Loc) (hl : LocalOk l) :
+theorem only_iff (ofType : Bool) (l : Loc) :
     selMatch (.only ofType) l = true ↔ Matches (.only ofType) l := by
   simp only [selMatch, Matches, IsElem, onlyMatch]
   by_cases hk : l.kind = .elem
@@ -114,15 +116,17 @@ theorem only_iff (ofType : Bool) (l : Loc) (hl : LocalOk l) :
     have : (l.kind != Kind.elem) = true := by simp [hk]
     simp [this, hk]
   case pos =>
-    have hp := hl.parent hk
     obtain ⟨n, path⟩ := l
     cases path with
-    | nil => exact absurd rfl hp
+    | nil =>
+      have hnk : ((Loc.mk n []).kind != Kind.elem) = false := by simp [hk]
+      simp [hnk, HasParent, Loc.parent?]
     | cons f fs =>
       have hk' : n.kind = .elem := hk
       have hs := skips_self ofType n hk'
       have hnk : ((Loc.mk n (f :: fs)).kind != Kind.elem) = false := by simp [hk]
-      simp only [hk, true_and, Loc.data]
+      have hpar : HasParent ⟨n, f :: fs⟩ := ⟨_, rfl⟩
+      simp only [hk, hpar, true_and, Loc.data]
       rw [onlyLoop_eq ofType n.data _ 0 (by omega)]
       have hm : (sibList f n).map (·.2) = f.left.reverse ++ n :: f.right := by
         simp [sibList, Function.comp_def]
@@ -171,13 +175,8 @@ theorem root_iff (l : Loc) (hl : LocalOk l) : selMatch .root l = true ↔ Matche
     rw [hp] at hpe
     exact Kind.noConfusion hpe
   · rintro ⟨hk, hp⟩
-    have hpath := hl.parent hk
     cases hpar : l.parent? with
-    | none =>
-      obtain ⟨n, path⟩ := l
-      cases path with
-      | nil => exact absurd rfl hpath
-      | cons f fs => simp [Loc.parent?] at hpar
+    | none => exact ⟨⟨hk, hl.detached hk hpar⟩, by simp⟩
     | some p =>
       rcases hl.root hk p hpar with h | ⟨h1, h2⟩
       · exact absurd ⟨p, hpar, h⟩ hp
